@@ -218,14 +218,22 @@ func normalizeToIntString(n numberParts) (string, bool) {
 		// Make sure resulting digits are within max value limit to avoid
 		// unnecessarily constructing a large byte slice that may simply fail
 		// later on.
+		// Leading zeros of the fraction are not digits of the result when
+		// there is no integer part (e.g. 0.000001e21 is 10^15).
+		lead := 0
+		if intpSize == 0 {
+			for lead < fracSize && n.frac[lead] == '0' {
+				lead++
+			}
+		}
 		const maxDigits = 20 // Max uint64 value has 20 decimal digits.
-		if intpSize+exp > maxDigits {
+		if intpSize+exp-lead > maxDigits {
 			return "", false
 		}
 
 		// Set cap to make a copy of integer part when appended.
 		num = n.intp[:len(n.intp):len(n.intp)]
-		num = append(num, n.frac...)
+		num = append(num, n.frac[lead:]...)
 		for i := 0; i < exp-fracSize; i++ {
 			num = append(num, '0')
 		}
